@@ -82,11 +82,11 @@ func InitConfig(native *native.NativeService) ([]byte, error) {
 	contract := utils.NodeManagerContractAddress
 
 	// check if initConfig is already execute
-	peerPoolMapBytes, err := native.GetCacheDB().Get(utils.ConcatKey(contract, []byte(PEER_POOL)))
+	governanceViewBytes, err := native.GetCacheDB().Get(utils.ConcatKey(contract, []byte(GOVERNANCE_VIEW)))
 	if err != nil {
-		return utils.BYTE_FALSE, fmt.Errorf("initConfig, get peerPoolMap error: %v", err)
+		return utils.BYTE_FALSE, fmt.Errorf("initConfig, get governanceView error: %v", err)
 	}
-	if peerPoolMapBytes != nil {
+	if governanceViewBytes != nil {
 		return utils.BYTE_FALSE, fmt.Errorf("initConfig. initConfig is already executed")
 	}
 
